@@ -21,7 +21,7 @@ def run(ctx):
     nprog = 350 if ctx.tier == "quick" else 6000
     progs = []
     for i in range(nprog):
-        rows = gen.gen_rows(rng)
+        rows = gen.gen_rows(rng, extra=True)
         fname = f"c07_{i}.csv"
         pr = gen.gen_prog(rng, fname, control=True, errors=(rng.random() < 0.2), collects=True)
         progs.append((pr, rows, fname))
